@@ -773,6 +773,9 @@ func Classify(tr *Trace) *Verdict {
 	legitEstablished := false
 	for _, e := range tr.Events {
 		if e.T == "established" {
+			if e.SessionID != tr.SessionID || tr.SessionID == "" {
+				continue // a late callback of an earlier connection's session
+			}
 			// the callback fires after the envelope went out: it needs an earlier established emission
 			if !legitEstablished {
 				v.issue("C03", "C03/established-callback-without-session", "the Established callback fired although no established session was announced before; script %v", tr.Script)
@@ -864,7 +867,9 @@ func Classify(tr *Trace) *Verdict {
 	// ---- C14: callbacks never fire for a session that did not establish; release after disconnect -----------
 	if !v.Established {
 		for _, e := range tr.Events {
-			if e.T == "established" || e.T == "finished" {
+			// (a callback of an earlier connection's session that fires late lands in this trace too: only callbacks
+			// that carry this connection's session id are this connection's)
+			if (e.T == "established" || e.T == "finished") && e.SessionID == tr.SessionID && tr.SessionID != "" {
 				v.issue("C14", "C14/callback-for-unestablished/"+e.T, "the %s callback fired for a connection whose handshake never produced an established session (script %v)", e.T, tr.Script)
 			}
 		}
